@@ -118,11 +118,16 @@ def _guess(rng, lo, hi, root, others=()):
 
 def make_elements(fam, cls, seed, n=BATCH):
     rng = rng_of(seed)
+    rng_s = rng_of(seed + 7907)     # separate stream: the elements of all other classes stay what they were
     els = []
     tries = 0
     while len(els) < n and tries < 50 * n:
         tries += 1
         th, lo, hi, root, others = _theta_and_bracket(fam, rng)
+        if fam == "rate" and cls in ("std", "ample", "rtol") and rng_s.random() < 0.3:
+            # the bracket starts AT the point of infinite slope (how J2's return mapping uses the finder: lower end = old
+            # plastic strain): f(c) = a*k is finite and non-zero, the slope there is -sign(a)*inf, and a has both signs
+            lo = float(th[1])
         x_tol, r_tol, mi = 1e-13, 0.0, 50
         kind = "bracketed"
         scale = max(abs(lo), abs(hi))
